@@ -89,7 +89,15 @@ func c01Message(r *ev.Run, m util.Message, kind string, bad func(clause, what st
 	if old, ch := ret.changed(); ch {
 		bad("earlier-result-overwritten", "the bytes returned for an earlier message ("+old+") changed when this message was encoded")
 	}
+	first := append([]byte{}, b...)
 	ret.add(b, label)
+	// the second encoding of the same value is framed the same way
+	if b2, err2, pn2 := safeEncode(m); pn2 == nil && err2 == nil {
+		l2, _ := safeLen(m)
+		if len(b2) < 8 || b2[0] != 4 || be16(b2[2:4]) != len(b2) || int(l2) != len(b2) || len(b2) != len(first) {
+			bad("second-encoding", fmt.Sprintf("encoding the same value again: %d bytes, header length %d, Len() %d (first encoding: %d bytes)", len(b2), be16(b2[2:4]), l2, len(first)))
+		}
+	}
 }
 
 func shortModel(n *wire.N) string {
